@@ -54,7 +54,7 @@ def classify_exception(e: BaseException):
         return e
     import traceback as _tb
 
-    frames = _tb.extract_tb(e.__traceback__)
+    frames = [f for f in _tb.extract_tb(e.__traceback__) if not f.filename.endswith("harness/chaos.py")]
     if not frames:
         return None
     inner = frames[-1]
@@ -326,6 +326,28 @@ class Ctx:
         """
         if shards is None:
             shards = [traces[i : i + shard_size] for i in range(0, len(traces), shard_size)] or [[]]
+        fuzz = float(os.environ.get("VERIF_FUZZ_EVENTS", "0") or 0)
+        if fuzz > 0:
+            # development aid (tools/totality.sh): damage a fraction of the events the way a misbehaving implementation would
+            # (a result missing and an exception recorded instead) to show that the trace spec stays total: rejections, never
+            # a TLC evaluation error
+            import random as _r
+
+            fr = _r.Random(12345)
+            keep = None
+
+            def damage(e):
+                if not isinstance(e, dict) or fr.random() > fuzz:
+                    return e
+                e = dict(e)
+                cands = [k2 for k2 in e if k2 in ("res", "back", "after", "sp", "signs", "over", "parsed", "reformat", "res_cal", "res_dim", "consumed",
+                                                   "safe", "sum", "diff", "rebuilt", "changed", "acc", "tod", "more", "name", "offset", "text", "again")]
+                for k2 in fr.sample(cands, min(len(cands), fr.randint(1, 3))):
+                    del e[k2]
+                e.setdefault(fr.choice(["exc", "rexc", "exc"]), "ValueError")
+                return e
+
+            shards = [[damage(e) for e in sh] for sh in shards]
         nevents = sum(len(s) for s in shards)
         tdir = self.workdir / f"traces_{module}{tag}"
         tdir.mkdir(parents=True, exist_ok=True)
